@@ -1,8 +1,9 @@
 #!/bin/sh
-# setup: pre-warm the build cache (plain build of the checker). Offline; touches only /verif/.build.
+# setup: pre-warm the build cache (plain build of the checker, the checkptr build used by C08). Offline; touches only /verif/.build.
 cd "$(dirname "$0")" || exit 2
 export GOFLAGS=-mod=mod GOPROXY=off GOSUMDB=off GOTOOLCHAIN=local
 export GOCACHE="${GOCACHE:-$PWD/.build/gocache}"
-mkdir -p .build
+mkdir -p .build/C08
 go build -o .build/verif-check ./cmd/verif-check || exit 1
+go build -gcflags=all=-d=checkptr -o .build/C08/verif-check-checkptr ./cmd/verif-check || exit 1
 echo setup ok
